@@ -47,6 +47,10 @@ int g_errno;
 #define timerfd_settime  v_timerfd_settime
 #define signalfd         v_signalfd
 #define sigprocmask      v_sigprocmask
+#undef sigemptyset
+#undef sigaddset
+#define sigemptyset      v_sigemptyset
+#define sigaddset        v_sigaddset
 #define inotify_init1    v_inotify_init1
 #define inotify_add_watch v_inotify_add_watch
 #define eventfd          v_eventfd
@@ -83,6 +87,8 @@ int v_timerfd_create(int clockid, int flags);
 int v_timerfd_settime(int fd, int flags, const struct itimerspec *n, struct itimerspec *o);
 int v_signalfd(int fd, const sigset_t *mask, int flags);
 int v_sigprocmask(int how, const sigset_t *set, sigset_t *old);
+static inline int v_sigemptyset(sigset_t *s) { (void)s; return 0; }
+static inline int v_sigaddset(sigset_t *s, int n) { (void)s; (void)n; return 0; }
 int v_inotify_init1(int flags);
 int v_inotify_add_watch(int fd, const char *path, uint32_t mask);
 int v_eventfd(unsigned int initval, int flags);
